@@ -15,10 +15,21 @@ def judge(ops, cb, paths):
     bad = []
     ranges = None; cur = None
     imgs = {}
+    geom = None; expect = None
     for i, o in enumerate(ops):
         a = o.split(); blk = cb[i] if i < len(cb) else []
+        if a[0] == "newdev": geom = (int(a[2]), int(a[3]), int(a[4]))
+        if a[0] == "mkhd" and geom:
+            # the partitions' block ranges from their cylinder ranges, by arithmetic that shares nothing with the library
+            cylb = geom[1] * geom[2]
+            expect = [(int(a[3 + 4 * k]) * cylb, (int(a[3 + 4 * k]) + int(a[4 + 4 * k])) * cylb - 1) for k in range(int(a[2]))]
         if a[0] in ("opendev", "mkhd") and blk and ("= ok" in blk[0] or "rc=0" in blk[0]):
             r = vol_ranges(blk[0]); ranges = r or ranges
+            if expect and r and len(r) == len(expect) and not any(x.startswith("pokeimg") or x.startswith("loadimg") for x in ops[:i]):
+                for k, (got, want) in enumerate(zip(r, expect)):
+                    if got != want:
+                        bad.append(f"'{a[0]}': volume {k} has block range [{got[0]},{got[1]}], its cylinders are blocks [{want[0]},{want[1]}]")
+                ranges = expect
             if a[0] == "opendev": continue       # RDB header reads happen here, by design outside every volume
         if a[0] == "mount": cur = int(a[2])
         if a[0] == "unmount": 
